@@ -184,13 +184,11 @@ RULE = ('a case is (KeepWhitespace, document bytes). Documents: every complete b
         'to 14 tokens; the same token streams re-rendered with other names, attributes, references, PIs, comments, '
         'DOCTYPE/internal subsets; inputs of xml_test.go, tests/xml/corpus, _benchmarks/*.xml. Documents the '
         'independent reader does not accept as well-formed are outside the quantification and are not judged. '
-        'Not generated (pinned as known findings instead): K1 numeric reference to "<" in a double-quoted attribute; '
-        'K2 numeric reference to "&" there unless a letter/digit/# follows; K3 numeric reference to tab/LF/CR there; '
-        'K4 literal CR LF inside an attribute value; K5 KeepWhitespace with blank-only element content; '
+        'Not generated (pinned as known findings instead): K4 literal CR LF inside an attribute value; '
         'K7/K8 "]]" directly followed by a reference to ">" or by CDATA/text that starts with ">"; '
         'K9 PI content that is not name="value" pseudo-attributes; K10 one of \" [ ] > inside a single-quoted '
-        'literal, a comment or a PI of the DOCTYPE declaration; K11 a blank-initial text reached while omitSpace '
-        'is still set from before a CDATA section that does not end in a blank (history variable `hit` of XmlMachine). '
+        'literal, a comment or a PI of the DOCTYPE declaration. (K1-K3, K5, K11 were fixed in /repo - 83190a6, 68b0b86, '
+        '9bd7820 - and are generated again; their former witnesses are regression inputs.) '
         'non-trivial = the real minifier returned bytes different from its input')
 
 
